@@ -297,6 +297,15 @@ func runC05(c *Ctx) {
 				}
 			}
 		})
+		if n == 0 {
+			// the pieces may be cut by a scan in a helper that is handed the set
+			g := NewGate(c.P)
+			g.Inline = inlineOnly()
+			if k, _, ok := cutScanSplitter(g, g.Eval(maskX)); ok {
+				cut += k
+				n++
+			}
+		}
 		bad := ""
 		if n == 0 {
 			bad = "UNDECIDED: the extractor does not split with strings.IndexAny on a constant set"
